@@ -213,6 +213,21 @@ impl Var {
         Ok(vec_i16)
     }
 
+    /// True when the name denotes a string variable: by its `$` suffix or,
+    /// for a name without a type suffix, by the DEFSTR setting of its first letter.
+    pub fn is_string(&self, var_name: &str) -> bool {
+        match var_name.chars().last() {
+            Some('$') => true,
+            Some('!') | Some('#') | Some('%') => false,
+            _ => match var_name.chars().next() {
+                Some(ch) if ch.is_ascii_uppercase() => {
+                    matches!(self.types[ch as usize - 'A' as usize], VarType::String)
+                }
+                _ => false,
+            },
+        }
+    }
+
     pub fn store(&mut self, var_name: &Rc<str>, value: Val) -> Result<()> {
         if self.vars.len() > u16::max_value() as usize {
             return Err(error!(OutOfMemory));
